@@ -4,7 +4,7 @@ import random
 
 import z3
 
-from symx.core import Z, B, SymInt, SymStr, SymBool, W
+from symx.core import Z, B, V, Or_, And_, Not_, SymInt, SymStr, SymBool, W
 from symx import text as T
 from symx.runner import Spec  # noqa: F401
 
@@ -107,3 +107,24 @@ class Claims:
     def done(self):
         self.ctx.claims(self.pairs)
         self.pairs = []
+
+
+def member(p, xs):
+    """p in xs; concrete members are compressed into runs so that 65 000 ports cost a handful of comparisons"""
+    if type(p) is int and all(type(x) is int for x in xs):
+        return p in xs
+    conc = sorted(x for x in xs if type(x) is int)
+    terms = [V(p) == V(x) for x in xs if type(x) is not int]
+    i = 0
+    while i < len(conc):
+        j = i
+        while j + 1 < len(conc) and conc[j + 1] - conc[j] <= 1:
+            j += 1
+        terms.append(V(p) == conc[i] if i == j else And_(V(p) >= conc[i], V(p) <= conc[j]))
+        i = j + 1
+    return Or_(terms)
+
+
+def in_nets(x, nets):
+    """x inside the union of IPv4Network objects (addresses may be symbolic)"""
+    return Or_([And_(V(x) >= V(T.ival(n.network_address)), V(x) <= V(T.ival(n.broadcast_address))) for n in nets])
